@@ -1,6 +1,6 @@
 (* Extract.v — extraction of the executable model to OCaml (ExtrOcamlBasic only). *)
 From Coq Require Extraction ExtrOcamlBasic.
-From RS Require Import Base Network NetSpec Tour TourSpec SchedObs Output.
+From RS Require Import Base Network NetSpec Tour TourSpec SchedObs Output Pipeline Transition TransSpec.
 Extraction Language OCaml.
 Extraction "model.ml" load nd can_reach successors predecessors service_nodes all_service_nodes
   capacity_of total_capacity_of get_start_depot_node get_end_depot_node
@@ -8,8 +8,11 @@ Extraction "model.ml" load nd can_reach successors predecessors service_nodes al
   start_depots_sorted_by_distance_to end_depots_sorted_by_distance_from
   loc_distance loc_travel_time minimal_duration_between dead_head_time_between
   dead_head_distance_between idle_time_between type_ids nid_cmp vid_cmp lookup_sorted is_depot n_travel_dist net_wf_b max_vehicles overflow_ok_b
-  tour_new tour_new_dummy new_computing path_new insert_path remove sub_path conflict latest_not_reaching_node
+  tour_new tour_new_dummy new_computing path_new insert_path Tour.remove sub_path conflict latest_not_reaching_node
   check_removable replace_start_depot replace_end_depot preceding_overhead subsequent_overhead maintenance_counter
   ref_insert ref_removable ref_remove ref_sub_path pos_of all_depots
   check_exact check_inv
-  check_C01 check_C02 check_C03 check_C04 check_C05 check_C07 eval_unserved eval_violation eval_costs lower_bound.
+  check_C01 check_C02 check_C03 check_C04 check_C05 check_C07 eval_unserved eval_violation eval_costs lower_bound
+  check_wiring check_start cycles_eqb cycles_of nids_eqb itinerary
+  new_fast get_successor_of update_vehicle add_vehicle_to_own_cycle remove_vehicle add_vehicle_at_the_end
+  move_vehicle replace_cycle three_opt three_opt_indices transfer_m tinv_codes not_worse same_members first_node last_node.
